@@ -36,7 +36,7 @@ CONSTANTS MaxDepth,     \* directories nest at most MaxDepth deep below the root
           ExtChoices,   \* set of configured extension sets, e.g. {{".sql"}, {".sql", ".txt"}}
           AllShapes,    \* TRUE: every prefix-closed tree; FALSE: only the complete tree
           CwdNames,     \* working directories: "" = the root, any other string = that child of the root
-          FixInnerKeep  \* model switch: the suggested repair of F1 (compare absolute with absolute)
+          FixInnerKeep  \* TRUE: retention test on absolute paths (the code since 3c3752e); FALSE: the pre-fix test (F1)
 
 Cwds      == {IF c = "" THEN <<>> ELSE <<c>> : c \in CwdNames}
 Names     == <<"a", "ab">>           \* "a" is a string prefix of "ab": the `+ os.sep` in the code matters
@@ -102,9 +102,10 @@ StarHit(specs, e)   == \E g \in specs : <<g.pat, RelDir(g.dir, e)>> \in MatchSta
 \* _process_exact_path
 AlgoExact(cwd, t, exts) == LET f == [dir |-> t.dir, name |-> t.name] IN
     IF ~ExtAlgo(f, exts) THEN {} ELSE IF Hit(OuterSpecs(cwd, t), f) THEN {} ELSE {f}
-\* _iter_files_in_path: the pruning condition of the inner specs is evaluated on path *spellings*: `dirname` is
-\* spelled like the argument, the right-hand side is absolute, so the second disjunct needs an absolute
-\* spelling (F1).  FixInnerKeep models os.path.abspath(dirname) on the left-hand side.
+\* _iter_files_in_path, retention of the inner specs while walking.  Before commit 3c3752e the test was
+\* `dirname == inner_dirname or dirname.startswith(abspath(inner_dirname) + sep)`: `dirname` is spelled like the
+\* argument, the right-hand side is absolute, so the second disjunct needed an absolute spelling (F1) — that is
+\* FixInnerKeep = FALSE.  The code now compares abspath(dirname): FixInnerKeep = TRUE.
 Keep(inner, cur, absolute) == cur = inner \/ ((absolute \/ FixInnerKeep) /\ PrefixOf(inner, cur))
 Children(d) == [i \in 1..Len(Names) |-> Append(d, Names[i])]
 RECURSIVE Walk(_, _, _, _, _, _)
@@ -160,7 +161,7 @@ Spec == Init /\ [][Next]_vars
 
 --------------------------------------------------------------------------------
 (* Algo => Contract.  Holds with FixInnerKeep = TRUE on pattern sets without the prune/negation clash;
-   violated (F1) with FixInnerKeep = FALSE for every non-absolute spelling.                              *)
+   violated (F1) with FixInnerKeep = FALSE for every non-absolute spelling (kept as a regression model).  *)
 AbsoluteWithinContract == \A q \in Queries : Within(q, AlgoSelect(q.cwd, q.t, q.exts, TRUE))
 RelativeWithinContract == \A q \in Queries : Spellings(q.cwd, q.t) # {"abs"} => Within(q, AlgoSelect(q.cwd, q.t, q.exts, FALSE))
 AlgoSpellingInvariant  == \A q \in Queries : Spellings(q.cwd, q.t) # {"abs"} =>
